@@ -27,9 +27,15 @@ func optSx(b []byte) Sx {
 func init() {
 	regOp("cc_write", func(a []Sx) Sx {
 		chain := certurl.CertChain{}
+		byText := map[string]*certurl.AugmentedCertificate{} // equal items are ONE object placed several times
 		for _, it := range a {
-			chain = append(chain, &certurl.AugmentedCertificate{
-				Cert: &x509.Certificate{Raw: it.L[0].B}, OCSPResponse: optB(it.L[1]), SCTList: optB(it.L[2])})
+			if ac, ok := byText[it.String()]; ok {
+				chain = append(chain, ac)
+				continue
+			}
+			ac := &certurl.AugmentedCertificate{Cert: &x509.Certificate{Raw: it.L[0].B}, OCSPResponse: optB(it.L[1]), SCTList: optB(it.L[2])}
+			byText[it.String()] = ac
+			chain = append(chain, ac)
 		}
 		var first, buf bytes.Buffer
 		err0 := chain.Write(&first) // written twice: both writes must agree
